@@ -641,63 +641,85 @@ func ruleNestedReset(p *Program, r *Report, rule string, list []stateType) {
 				continue
 			}
 			key := n.Obj().Name() + "|nested ." + f.Name()
+			if isNamedType(ft, "bufio", "Reader") && backingOnly(p, n, f.Name()) {
+				// a private buffer that is only ever re-targeted and then installed in another field
+				// (rBuf = own): it is judged where it is installed, and may lie dormant otherwise
+				r.OK(rule, key, p.Pos(reset.Pos()), "backing buffer ."+f.Name()+" is used only through the field it is installed in; judged there")
+				continue
+			}
+			// resetOf(g): barrier for "field g of the receiver is reset or replaced here"
+			var resetOf func(g string, depth int) func(in ssa.Instruction) bool
 			// a call of a method named Reset/reset on the field value, or a store of a fresh value into it, on every success path
-			barrier := func(in ssa.Instruction) bool {
-				switch x := in.(type) {
-				case *ssa.Store:
-					root, sel := accessPath(x.Addr)
-					if root == recv && sel == "."+f.Name() {
-						if p.isFresh(x.Val) {
-							return true
+			barrierFor := func(fname string, depth int) func(in ssa.Instruction) bool {
+				return func(in ssa.Instruction) bool {
+					switch x := in.(type) {
+					case *ssa.Store:
+						root, sel := accessPath(x.Addr)
+						if root == recv && sel == "."+fname {
+							if p.isFresh(x.Val) {
+								return true
+							}
+							// another field of the receiver that has definitely been reset/replaced since entry (rBuf = own)
+							if depth < 2 {
+								for _, leaf := range p.valueSources(x.Val) {
+									if r2, s2, isL := fieldLoad(leaf); isL && r2 == recv && s2 != sel && strings.Count(s2, ".") == 1 {
+										if stale, _, _ := (PathQuery{Target: func(y ssa.Instruction) bool { return y == ssa.Instruction(x) }, Barrier: resetOf(s2[1:], depth+1)}).Find(reset); !stale {
+											return true
+										}
+									}
+								}
+							}
+							// the caller's own object taken from a parameter (type assertion) replaces the old one
+							for _, leaf := range p.valueSources(x.Val) {
+								if ex, ok := leaf.(*ssa.Extract); ok {
+									if ta, ok := ex.Tuple.(*ssa.TypeAssert); ok {
+										if _, isPar := ta.X.(*ssa.Parameter); isPar {
+											return true
+										}
+									}
+								}
+							}
 						}
-						// the caller's own object taken from a parameter (type assertion) replaces the old one
-						for _, leaf := range p.valueSources(x.Val) {
-							if ex, ok := leaf.(*ssa.Extract); ok {
-								if ta, ok := ex.Tuple.(*ssa.TypeAssert); ok {
-									if _, isPar := ta.X.(*ssa.Parameter); isPar {
+						return false
+					case ssa.CallInstruction:
+						com := x.Common()
+						name := ""
+						var on ssa.Value
+						if com.IsInvoke() {
+							name, on = com.Method.Name(), com.Value
+						} else if fcal := com.StaticCallee(); fcal != nil && fcal.Signature.Recv() != nil && len(com.Args) > 0 {
+							name, on = fcal.Name(), com.Args[0]
+						} else if fcal := com.StaticCallee(); fcal != nil {
+							// a helper of the same receiver that performs the reset (gzip init, readHeader)
+							if len(com.Args) > 0 && com.Args[0] == recv && fcal.Blocks != nil {
+								for _, sel := range p.Effects().ParamWrites(fcal, 0) {
+									if strings.HasPrefix(sel, "."+fname) {
 										return true
 									}
+								}
+							}
+							return false
+						}
+						if (name == "Reset" || name == "reset") && on != nil {
+							root, sel := accessPath(on)
+							if root == recv && (sel == "."+fname || sel == "."+fname+"^") {
+								return true
+							}
+						}
+						// helper method of the same receiver
+						if fcal := com.StaticCallee(); fcal != nil && fcal.Blocks != nil && len(com.Args) > 0 && com.Args[0] == recv && fcal != reset {
+							for _, sel := range p.Effects().ParamWrites(fcal, 0) {
+								if strings.HasPrefix(sel, "."+fname) && len(sel) > len(fname)+1 {
+									return true
 								}
 							}
 						}
 					}
 					return false
-				case ssa.CallInstruction:
-					com := x.Common()
-					name := ""
-					var on ssa.Value
-					if com.IsInvoke() {
-						name, on = com.Method.Name(), com.Value
-					} else if fcal := com.StaticCallee(); fcal != nil && fcal.Signature.Recv() != nil && len(com.Args) > 0 {
-						name, on = fcal.Name(), com.Args[0]
-					} else if fcal := com.StaticCallee(); fcal != nil {
-						// a helper of the same receiver that performs the reset (gzip init, readHeader)
-						if len(com.Args) > 0 && com.Args[0] == recv && fcal.Blocks != nil {
-							for _, sel := range p.Effects().ParamWrites(fcal, 0) {
-								if strings.HasPrefix(sel, "."+f.Name()) {
-									return true
-								}
-							}
-						}
-						return false
-					}
-					if (name == "Reset" || name == "reset") && on != nil {
-						root, sel := accessPath(on)
-						if root == recv && (sel == "."+f.Name() || sel == "."+f.Name()+"^") {
-							return true
-						}
-					}
-					// helper method of the same receiver
-					if fcal := com.StaticCallee(); fcal != nil && fcal.Blocks != nil && len(com.Args) > 0 && com.Args[0] == recv && fcal != reset {
-						for _, sel := range p.Effects().ParamWrites(fcal, 0) {
-							if strings.HasPrefix(sel, "."+f.Name()) && len(sel) > len(f.Name())+1 {
-								return true
-							}
-						}
-					}
 				}
-				return false
 			}
+			resetOf = barrierFor
+			barrier := barrierFor(f.Name(), 0)
 			edgeOK := func(a, b *ssa.BasicBlock) bool {
 				br, ok := edgeCond(a, b)
 				if !ok {
@@ -748,6 +770,37 @@ func ruleNestedReset(p *Program, r *Report, rule string, list []stateType) {
 				return true
 			}
 			found, hit, path := PathQuery{Target: target, Barrier: barrier, EdgeOK: delegOK}.Find(reset)
+			if _, byValue := ft.Underlying().(*types.Struct); found && nestedT != nil && byValue {
+				// the nested object's own reset may have been written out in place: every selector that reset writes
+				// is stored through this field on every success path
+				if nr := findReset(p, nestedT); nr != nil {
+					ws := p.Effects().ParamWrites(nr, 0)
+					all := len(ws) > 0
+					for _, wsel := range ws {
+						want := "." + f.Name() + wsel
+						covered := func(in ssa.Instruction) bool {
+							st, ok := in.(*ssa.Store)
+							if !ok {
+								return barrier(in)
+							}
+							root, sel := accessPath(st.Addr)
+							if root != recv {
+								return false
+							}
+							if sel == "" || !strings.HasPrefix(sel, "."+f.Name()) {
+								return barrier(in)
+							}
+							return sel == want || strings.HasPrefix(want, sel+".") || strings.HasPrefix(want, sel+"[") || barrier(in)
+						}
+						if miss, _, _ := (PathQuery{Target: target, Barrier: loopAware(reset, covered), EdgeOK: delegOK}).Find(reset); miss {
+							all = false
+						}
+					}
+					if all {
+						found = false
+					}
+				}
+			}
 			if found {
 				r.Fail(rule, key, p.Pos(reset.Pos()), "nested stateful object ."+f.Name()+" is reset or replaced by "+reset.Name()+" on every success path", "return at "+p.InstrPos(hit)+" reachable (blocks "+fmtInts(path)+") without resetting it")
 			} else {
@@ -755,6 +808,54 @@ func ruleNestedReset(p *Program, r *Report, rule string, list []stateType) {
 			}
 		}
 	}
+}
+
+// backingOnly: every load of field fname of type n (outside nil tests) is either the receiver of a Reset call or
+// the value stored into another *bufio.Reader field of the same object.
+func backingOnly(p *Program, n *types.Named, fname string) bool {
+	loads, installs := 0, 0
+	for _, fn := range p.Funcs() {
+		for _, b := range fn.Blocks {
+			for _, in := range b.Instrs {
+				u, ok := in.(*ssa.UnOp)
+				if !ok || u.Op != token.MUL {
+					continue
+				}
+				root, sel, isL := fieldLoad(u)
+				if !isL || root == nil || sel != "."+fname || derefNamed(root.Type()) != n {
+					continue
+				}
+				loads++
+				refs := u.Referrers()
+				if refs == nil {
+					continue
+				}
+				for _, ref := range *refs {
+					switch x := ref.(type) {
+					case *ssa.BinOp:
+						// nil test
+					case *ssa.Store:
+						r2, s2 := accessPath(x.Addr)
+						if x.Val == ssa.Value(u) && r2 == root && s2 != sel && s2 != "" {
+							installs++
+							continue
+						}
+						return false
+					case ssa.CallInstruction:
+						f := x.Common().StaticCallee()
+						if isMethodOf(f, "bufio", "Reader", "Reset") && x.Common().Args[0] == ssa.Value(u) {
+							continue
+						}
+						return false
+					case *ssa.DebugRef:
+					default:
+						return false
+					}
+				}
+			}
+		}
+	}
+	return loads > 0 && installs > 0
 }
 
 func ruleR13_2(p *Program, r *Report) {
